@@ -91,15 +91,15 @@ const KINDS: [(&str, fc::AnyCalendarKind, IcuKind); 18] = [
 pub fn kind_ffi(m: &str, a: &Value) -> Option<Value> {
     Some(match m {
         "get_for_bcp47_string" => runc(|| Ok::<_, CErr>(fc::AnyCalendarKind::get_for_bcp47_string(js::s(a, "src").as_bytes())), |k| match k {
-            Some(k) => KINDS.iter().find(|x| x.1 as i64 == *k as i64).map(|x| json!(x.0)).unwrap_or(json!("?")),
-            None => Value::Null,
+            Some(k) => KINDS.iter().find(|x| x.1 as i64 == *k as i64).map(|x| json!([x.0])).unwrap_or(json!(["?"])),
+            None => json!([]),
         }),
         _ => return None,
     })
 }
 pub fn kind_core(m: &str, a: &Value) -> Option<Value> {
     Some(match m {
-        "get_for_bcp47_bytes" => run(|| Ok(IcuKind::get_for_bcp47_bytes(js::s(a, "src").as_bytes())), |k| match k { Some(k) => json!(format!("{:?}", k)), None => Value::Null }),
+        "get_for_bcp47_bytes" => run(|| Ok(IcuKind::get_for_bcp47_bytes(js::s(a, "src").as_bytes())), |k| match k { Some(k) => json!([format!("{:?}", k)]), None => json!([]) }),
         _ => return None,
     })
 }
